@@ -102,6 +102,7 @@ func loadProgram(repo, hdir string, extraPkgs []string) (*Engine, error) {
 	e.redirects["errors.Is"] = verifPkg + ".ErrorsIs"
 	e.redirects["errors.As"] = verifPkg + ".ErrorsAs"
 	e.redirects["github.com/google/gopacket.FoldChecksum"] = verifPkg + ".ModelFoldChecksum"
+	e.redirects["github.com/google/gopacket/layers.tcpipChecksum"] = verifPkg + ".ModelTcpipChecksum"
 	e.redirects["github.com/google/gopacket/layers.checksum"] = verifPkg + ".ModelIPv4Checksum"
 	e.redirects["context.Background"] = verifPkg + ".CtxBackground"
 	e.redirects["context.TODO"] = verifPkg + ".CtxBackground"
@@ -136,12 +137,14 @@ type JobSpec struct {
 	Preempt   *int              `json:"max_preempt,omitempty"`
 	Expect    []string          `json:"reach,omitempty"`
 	MayPanic  bool              `json:"may_panic,omitempty"`
+	Labels    []string          `json:"labels,omitempty"`
 }
 
 func (e *Engine) runJob(spec JobSpec, kfOpen map[string]bool) (job *Job) {
 	job = &Job{Harness: spec.Pkg + "." + spec.Harness, Params: spec.Params, paths: map[string]int{}, violCount: map[string]int{},
 		knownHits: map[string]int{}, asserts: map[string]*AssertStat{}, reach: map[string]*DrawSet{}, reachCount: map[string]int{},
 		funcs: map[string]int{}, forkSites: map[string]int{}, maxViol: 2, kfOpen: kfOpen, maxPreempt: -1}
+	job.labels = spec.Labels
 	if job.Params == nil {
 		job.Params = map[string]string{}
 	}
@@ -392,6 +395,7 @@ func loadKnown() map[string]bool {
 
 type CheckSpec struct {
 	Property    string              `json:"property"`
+	Labels      []string            `json:"labels,omitempty"`
 	Tiers       map[string]TierSpec `json:"tiers"`
 	Assumptions []string            `json:"assumptions"`
 	Bounds      map[string]string   `json:"bounds"`
@@ -401,6 +405,7 @@ type CheckSpec struct {
 
 type TierSpec struct {
 	Jobs    []JobSpec         `json:"jobs"`
+	Labels  []string          `json:"labels,omitempty"`
 	Bounds  map[string]string `json:"bounds,omitempty"`
 	Workers int               `json:"workers,omitempty"`
 }
@@ -461,7 +466,14 @@ func runCheck(repo, hdir, specPath, tier, evidencePath, replayDir string, noRepl
 			defer wg.Done()
 			sem <- struct{}{}
 			defer func() { <-sem }()
-			jobs[i] = e.runJob(ts.Jobs[i], kfOpen)
+			js := ts.Jobs[i]
+			if js.Labels == nil {
+				js.Labels = ts.Labels
+			}
+			if js.Labels == nil {
+				js.Labels = spec.Labels
+			}
+			jobs[i] = e.runJob(js, kfOpen)
 		}(i)
 	}
 	wg.Wait()
